@@ -17,6 +17,9 @@ pub struct TfCase {
     pub block: HexBytes,
     /// construct with `new` (tweak must be 0,0) instead of `with_tweak`
     pub via_new: bool,
+    /// byte offsets (0..7) of the key and of the block inside 8-byte aligned buffers
+    #[serde(default)]
+    pub offs: (u8, u8),
 }
 
 fn tweak_word() -> BoxedStrategy<u64> {
@@ -44,19 +47,28 @@ pub fn tf_strategy() -> BoxedStrategy<TfCase> {
     prop_oneof![Just(256u16), Just(512u16), Just(1024u16)]
         .prop_flat_map(|bits| {
             let n = bits as usize / 8;
-            (Just(bits), key_strategy(n), (tweak_word(), tweak_word()), bytes_n(n), prop::bool::weighted(0.1))
+            (Just(bits), key_strategy(n), (tweak_word(), tweak_word()), bytes_n(n), prop::bool::weighted(0.1), prop_oneof![2 => Just((0u8, 0u8)), 1 => (0u8..8, 0u8..8)])
         })
-        .prop_map(|(bits, key, tweak, block, via_new)| TfCase { bits, key, tweak: if via_new { (0, 0) } else { tweak }, block, via_new })
+        .prop_map(|(bits, key, tweak, block, via_new, offs)| TfCase { bits, key, tweak: if via_new { (0, 0) } else { tweak }, block, via_new, offs })
         .boxed()
 }
 
 fn run_impl(c: &TfCase, block: &[u8], decrypt: bool) -> Vec<u8> {
     macro_rules! go {
         ($t:ty) => {{
-            let key = GenericArray::from_slice(&c.key.0);
+            // key and block live at the generated offsets of 8-byte aligned buffers
+            let n = block.len();
+            let (ko, bo) = ((c.offs.0 % 8) as usize, (c.offs.1 % 8) as usize);
+            let mut kbuf = vec![0u64; n / 8 + 2];
+            let kbytes: &mut [u8] = unsafe { std::slice::from_raw_parts_mut(kbuf.as_mut_ptr() as *mut u8, n + 16) };
+            kbytes[ko..ko + n].copy_from_slice(&c.key.0);
+            let key = GenericArray::from_slice(&kbytes[ko..ko + n]);
             let f = if c.via_new { <$t>::new(key) } else { <$t>::with_tweak(key, c.tweak.0, c.tweak.1) };
-            let mut b = GenericArray::clone_from_slice(block);
-            if decrypt { f.decrypt_block(&mut b) } else { f.encrypt_block(&mut b) }
+            let mut bbuf = vec![0u64; n / 8 + 2];
+            let bbytes: &mut [u8] = unsafe { std::slice::from_raw_parts_mut(bbuf.as_mut_ptr() as *mut u8, n + 16) };
+            bbytes[bo..bo + n].copy_from_slice(block);
+            let b = GenericArray::from_mut_slice(&mut bbytes[bo..bo + n]);
+            if decrypt { f.decrypt_block(b) } else { f.encrypt_block(b) }
             b.to_vec()
         }};
     }
@@ -71,6 +83,7 @@ pub fn c09_check(c: &TfCase, info: &mut CaseInfo) -> Result<(), Fail> {
     let want = unwords(&threefish_encrypt(&words(&c.key.0), [c.tweak.0, c.tweak.1], &words(&c.block.0)));
     info.label(format!("Threefish{}", c.bits));
     info.label_if(c.via_new, "constructed with new()");
+    info.label_if(c.offs.1 % 8 != 0, "block at an address that is not 8-byte aligned");
     info.nontrivial = true;
     match guard(|| run_impl(c, &c.block.0, false)) {
         Err(p) => Err(Fail::new(format!("C09:Threefish{}:PANIC", c.bits), p)),
